@@ -6,7 +6,7 @@ from harness import muxlib, muxgen
 PID = 'C02'
 RULE = ('random typed pipelines (depth <= 3: simple stateful operators inside group_by/roll/split/time_split/tee_map, '
         'nested) x well-formed keyed traces with 1-4 slots, sparse/descending indices, up to 3 successive lifetimes per '
-        'slot, random interleaving; composite operators placed directly on 2-3 interleaved keys (and nested once more) with inner stateful operators; a scale family (hundreds of items per key, 70-270 keys live at once and created in waves, hundreds of groups, window / stride / batch / lag / take / pad sizes of 50-300; the model is evaluated up to 450 events, beyond that the oracle alone). non-trivial = at least one stateful operator, >= 2 lifetimes, and a slot that is '
+        'slot, random interleaving; composite operators placed directly on 2-3 interleaved keys (and nested once more) with inner stateful operators; a scale family (hundreds of items per key, 70-270 keys live at once and created in waves, hundreds of groups, window / stride / batch / lag / take / pad sizes of 50-300; the model is evaluated up to 300 events, beyond that the oracle alone). non-trivial = at least one stateful operator, >= 2 lifetimes, and a slot that is '
         'reused or >= 2 interleaved keys; distinct = distinct (pipeline, trace) JSON')
 TRUSTED = ['modelled not verified: RxPY synchronous delivery / Subject fan-out order / AutoDetachObserver stop after '
            'on_error; Python dict insertion order, ==/hash on keys; copy.deepcopy freshness of scan seeds',
